@@ -249,8 +249,9 @@ def main():
                                                   "see DESIGN.md section 4) - not claimed until its module exists")})
     manifest = {
         "version": 1,
-        "setup_cmd": "/venv/bin/python -c 'import hypothesis' 2>/dev/null || /venv/bin/pip install --no-index "
-                     "--find-links /opt/veriftools/wheels hypothesis",
+        "setup_cmd": "(/venv/bin/python -c 'import hypothesis' 2>/dev/null || /venv/bin/pip install --no-index "
+                     "--find-links /opt/veriftools/wheels hypothesis) && (test -d .deps/atheris || /venv/bin/pip install -q "
+                     "--no-index --find-links /opt/veriftools/wheels --target .deps atheris || true)",
         "hooks": {
             "guard": "UBERMAG_DISCRETISEDFIELD_VERIF",
             "enable": "no hooks are needed: every observation point is public API or a public file; checks "
